@@ -60,6 +60,10 @@ def numpyise(rng, args, kwargs, single=True):
         if isinstance(v, bool) or not isinstance(v, (int, float)) or rng.random() < 0.4:
             return v
         if isinstance(v, float) and not np.isfinite(v):
+            if v == float('inf'):  # "unbounded" spelled in another way: a new float object, math.inf, a NumPy scalar (equal by value, not identical to np.inf)
+                n[0] += 1
+                import math
+                return [float('inf'), math.inf, np.float64('inf'), -np.log(np.float64(0.0)) if False else np.float64(np.inf)][int(rng.integers(0, 4))]
             return v
         n[0] += 1
         if isinstance(v, int):
@@ -68,6 +72,17 @@ def numpyise(rng, args, kwargs, single=True):
         # (value preserving only: other arguments of the same call - precomputed propagators, reference lists - may have been derived from v)
         return np.float32(v) if single and rng.random() < 0.25 and abs(v) < 1e30 and float(np.float32(v)) == v else np.float64(v)
     return tuple(conv(a) for a in args), {k: conv(v) for k, v in kwargs.items()}, n[0]
+
+
+STRICT_PROBE = bool(os.environ.get('VERIF_STRICT_PROBE'))
+# entry points whose unchanged implementation was never seen to raise under np.errstate(all='raise') (probe runs, seeds 0-3)
+try:
+    import json as _json
+    STRICT_FP_OK = set(_json.load(open(os.path.join(os.path.dirname(os.path.abspath(__file__)), 'strict_ok.json'))))
+except Exception:
+    STRICT_FP_OK = set()
+if os.environ.get('VERIF_NO_STRICT_ENV'):
+    STRICT_FP_OK = set()
 
 
 def call(api, fn, *args, prop=None, tags=(), detail=None, refusals=(), refusal_pred=None, **kwargs):
@@ -86,12 +101,30 @@ def call(api, fn, *args, prop=None, tags=(), detail=None, refusals=(), refusal_p
         if not k2 and a2 is not args:
             c.events['called_positionally:' + api] += 1
             args, kwargs = a2, k2
+    strict = False
+    if c is not None and c.aux_rng is not None:
+        if STRICT_PROBE:
+            strict = True
+        elif api in STRICT_FP_OK and c.aux_rng.random() < 0.12:
+            strict = True
     try:
-        r = fn(*args, **kwargs)
+        if strict:
+            # the caller's floating-point error state is the caller's business: with np.seterr(all='raise') a silent 0/0 or overflow inside
+            # the library becomes a FloatingPointError.  Only for entry points on which the unchanged library never relies on silent
+            # floating-point exceptions (STRICT_FP_OK, established with VERIF_STRICT_PROBE=1 over several seeds)
+            c.events['called_with_strict_floating_point_error_state:' + api] += 1
+            import warnings as _w
+            with np.errstate(all='raise'), _w.catch_warnings():
+                _w.simplefilter('error')  # (warnings turned into errors: python -W error, pytest filterwarnings = error)
+                r = fn(*args, **kwargs)
+        else:
+            r = fn(*args, **kwargs)
     except refusals as e:
         c.events['refused:' + api + ':' + type(e).__name__] += 1
         return False, None
     except Exception as e:  # noqa
+        if STRICT_PROBE and isinstance(e, (FloatingPointError, Warning)):
+            c.events['strict_probe_floating_point_error:' + api] += 1
         probe.S.busy = 0
         probe.S.depth = 0
         del probe.S.targets[:]
